@@ -207,7 +207,30 @@ pub fn run(ctx: &Ctx) {
         let hx = |k: &str| hex::decode(r[k].as_str().unwrap_or("")).unwrap_or_default();
         let bi = bs.iter().position(|b| b.name == r["backend"].as_str().unwrap_or("")).expect("backend");
         let purpose = if r["purpose"] == "local" { "local" } else { "public" };
-        let f = Fault { kind: "replay", detail: r["detail"].as_str().unwrap_or("").into(), backend: bi, purpose, key: hx("key"), payload: hx("payload"), footer: hx("footer"), aad: hx("aad"), text: r["text"].as_str().map(|s| s.to_string()) };
+        if r["fault"] == "payload-type-relabel" {
+            // both payload types used once, then each token offered to the other type
+            let b = &bs[bi];
+            // the two tokens are sealed again here (the recorded ones were produced by the tree on which the violation
+            // was found and are kept in the file for reading only)
+            let (sealk, key, a) = (hx("seal_key"), hx("key"), hx("aad"));
+            let plain = if purpose == "local" { (b.local_encrypt)(&sealk, b"plain", b"f", &a, SealVia::Seal) } else { (b.public_sign)(&sealk, b"plain", b"f", &a, SealVia::Seal) }.unwrap_or_default();
+            let sfx = (b.seal_x)(purpose, &sealk, b"suffixed", b"f", &a).unwrap_or_default();
+            let (plain, sfx) = (plain.as_str(), sfx.as_str());
+            let (h0, hx_) = (format!("{}.{purpose}.", b.ver), format!("{}x.{purpose}.", b.ver));
+            let _ = unseal_counting(b.name, purpose, false, &key, plain, &a);
+            let _ = unseal_counting_x(b.name, purpose, &key, sfx, &a);
+            let as_x = format!("{hx_}{}", plain.get(h0.len()..).unwrap_or(""));
+            let as_0 = format!("{h0}{}", sfx.get(hx_.len()..).unwrap_or(""));
+            for (what, obs) in [("a plain token relabelled to the suffixed payload type", unseal_counting_x(b.name, purpose, &key, &as_x, &a)), ("a suffixed token relabelled to the plain payload type", unseal_counting(b.name, purpose, false, &key, &as_0, &a))] {
+                rep.evaluations += 1;
+                if obs.0 == "ok" || obs.1 != 0 || obs.2 != 0 {
+                    rep.violation(&format!("c12.{}.{purpose}.ran-on-unauthenticated", b.name), format!("{} {purpose}: {what} gave {} with {} decoder call(s) and {} validator call(s)", b.name, obs.0, obs.1, obs.2), v["replay"].clone());
+                }
+            }
+            rep.finish(ctx.out.as_deref());
+            return;
+        }
+        let f = Fault { kind: "replay", detail: r["detail"].as_str().unwrap_or("").into(), backend: bi, purpose, key: hx("key"), payload: hx("payload"), footer: hx("footer"), aad: hx("aad"), text: r["text"].as_str().or(r["token"].as_str()).map(|s| s.to_string()) };
         check_fault(&bs, &f, &mut rep);
         rep.finish(ctx.out.as_deref());
         return;
@@ -330,7 +353,7 @@ pub fn run(ctx: &Ctx) {
                     let as_0 = format!("{h0}{}", &sfx[hx.len()..]);
                     for (what, obs) in [("a plain token relabelled to the suffixed payload type", unseal_counting_x(b.name, purpose, &unsealk, &as_x, &a)), ("a suffixed token relabelled to the plain payload type", unseal_counting(b.name, purpose, false, &unsealk, &as_0, &a))] {
                         if obs.0 == "ok" || obs.1 != 0 || obs.2 != 0 {
-                            rep.violation(&format!("c12.{}.{purpose}.ran-on-unauthenticated", b.name), format!("{} {purpose}: {what} gave {} with {} decoder call(s) and {} validator call(s)", b.name, obs.0, obs.1, obs.2), json!({"backend": b.name, "purpose": purpose, "fault": "payload-type-relabel", "key": hex::encode(&unsealk), "plain": plain, "suffixed": sfx, "aad": hex::encode(&a)}));
+                            rep.violation(&format!("c12.{}.{purpose}.ran-on-unauthenticated", b.name), format!("{} {purpose}: {what} gave {} with {} decoder call(s) and {} validator call(s)", b.name, obs.0, obs.1, obs.2), json!({"backend": b.name, "purpose": purpose, "fault": "payload-type-relabel", "seal_key": hex::encode(&sealk), "key": hex::encode(&unsealk), "plain": plain, "suffixed": sfx, "aad": hex::encode(&a)}));
                         } else {
                             rep.nontrivial(format!("{}|{purpose}|payload-type-relabel", b.name));
                         }
